@@ -77,6 +77,32 @@ func LiteralNumber(n *formula.LiteralExpression) (out any) {
 	return Dec(b)
 }
 
+// LiteralString is the text the real evaluator gives a string literal node (evaluated like
+// LiteralNumber); falls back to a tagged tuple when evaluation does not yield a string.
+func LiteralString(n *formula.LiteralExpression) (out any) {
+	defer func() {
+		if r := recover(); r != nil {
+			out = T{"PANIC", fmt.Sprint(r)}
+		}
+	}()
+	l := &formula.NodeList[formula.Expression]{}
+	l.Add(n)
+	arr := &formula.ArrayLiteralExpression{Elements: l}
+	res, err := formula.NewRunner().Resolve(context.Background(), arr)
+	if err != nil {
+		return T{"err"}
+	}
+	a, ok := res.([]interface{})
+	if !ok || len(a) != 1 {
+		return T{"notarray"}
+	}
+	s, ok := a[0].(string)
+	if !ok {
+		return T{"notstring", fmt.Sprintf("%T", a[0])}
+	}
+	return bytesSeq([]byte(s))
+}
+
 // DecText renders a canonical <<neg, digits, exp>> as literal text (non-negative only
 // where used as a token).
 func DecText(v any) (string, bool) {
